@@ -386,6 +386,7 @@ def run_history(hist, stop_on_violation=True, use_known=True):
 
     cfg = prop.world_cfg(hist)
     cfg["stop_on_violation"] = stop_on_violation
+    cfg.setdefault("fd_sample", hist.get("seed", 0) % 8 == 0)
     if use_known:
         cfg["known_matcher"] = known_matcher
     # ids seen by lock_management always come from the simulated allocator (policy "never" =
@@ -515,26 +516,25 @@ class EpochGen:
         return getattr(g, "op_" + m)(src)
 
     def _terminal(self, terms):
-        """L = sum_i c_i * term_i.sum()"""
+        """L = sum_i c_i * term_i.sum()  (one shrink-friendly event)"""
         g = self.g
-        acc = None
+        ts = []
+        tot = 0.0
         for h in terms:
             if h not in g.t or g.t[h].val.dtype.kind != "f":
                 continue
-            s = g._emit_op("sum", [{"t": h}], {"axis": None, "keepdims": False})
-            if s is None:
-                continue
             c = float(g.r.randint(1, 3)) if g.exact else round(g.r.uniform(0.5, 2.0), 2)
-            m = g._emit_op("mul", [{"t": s}, {"c": c}] if g.coin(0.5) else [{"c": c}, {"t": s}])
-            if m is None:
-                continue
-            if acc is None:
-                acc = m
-            else:
-                a2 = g._emit_op("add", [{"t": acc}, {"t": m}] if g.coin(0.5) else [{"t": m}, {"t": acc}])
-                if a2 is not None:
-                    acc = a2
-        return acc
+            ts.append([h, c])
+            tot = tot + float(np.sum(g.t[h].val.astype(np.float64))) * c
+        if not ts or not np.isfinite(tot):
+            return None
+        from .gen import G
+
+        L = g.new_h()
+        g.emit({"k": "terminal", "out": L, "terms": ts})
+        g.fam_id += 1
+        g.t[L] = G(np.asarray(tot), all(g.t[h].const for h, _ in ts), g.epoch, g.fam_id, depth=99)
+        return L
 
 
 class C04(Prop):
@@ -579,3 +579,233 @@ class C04(Prop):
 
 
 register(C04())
+
+
+class C05(Prop):
+    id = "C05"
+    title = "gradients through in-place updates and views"
+    rule = (
+        "epoch histories with reads before/after every mutation and a terminal over all kept terms and all members; non-trivial when a "
+        "backward pass was judged against the functional tape after at least one in-place update on a view family; distinct by the "
+        "sequence of (event kind, outcome class)"
+    )
+    expected_probes = ["grad.judged_backward", "grad.value_ok", "c04.inplace_on_family"]
+
+    def generate(self, rng):
+        cfg = {
+            "lane": rng.choice(["plain", "plain", "plain", "seams"]),
+            "id_policy": "never",
+            "max_elems": rng.choice([6, 12]),
+            "max_ndim": rng.choice([1, 2, 3]),
+            "dtypes": rng.choice([["f8"], ["f8"], ["f8", "f4"]]),
+            "tape": True,
+            "exact": rng.random() < 0.5,
+            "const_flags": rng.random() < 0.25,
+        }
+        if cfg["exact"]:
+            cfg["dtypes"] = ["f8"]
+        w = {"view": rng.choice([3, 6]), "adv": rng.choice([0, 1]), "read": rng.choice([3, 5]), "setitem": rng.choice([2, 5]), "iop": rng.choice([1, 3]),
+             "ufunc": rng.choice([1, 3]), "setshape": rng.choice([0, 0, 1]), "drop": rng.choice([0, 1]), "leaf": 0.5, "fail": 0}
+        if cfg["lane"] == "seams":
+            cfg["id_policy"] = rng.choice(["lifo", "random"])
+            cfg["gc_preempt_p"] = 0.15
+        g = Gen(rng, cfg)
+        eg = EpochGen(g, {"weights": w, "max_events": rng.choice([6, 10, 16]), "adv_p": rng.choice([0.2, 0.5]), "end": [("backward", 1)]})
+        eg.run(rng.randint(1, 3))
+        add_faults(g, g.ev, rng, cfg)
+        return {"prop": self.id, "cfg": cfg, "events": g.ev}
+
+    def observers(self, hist):
+        return [O.TapeValueOracle("C05"), O.GradOracle("C05")]
+
+    def nontrivial(self, world):
+        return world.probes.get("grad.judged_backward", 0) > 0 and world.probes.get("c04.inplace_on_family", 0) > 0
+
+
+register(C05())
+
+
+# ======================================================================================
+# C01 - exact total derivative, independent of write order
+# ======================================================================================
+COMMUTATIVE = {"add", "mul", "maximum", "minimum"}
+
+
+def _ev_deps(ev):
+    d = [r["t"] for r in ev.get("args", []) if "t" in r]
+    if ev["k"] == "terminal":
+        d += [h for h, _ in ev["terms"]]
+    if "tgt" in ev:
+        d.append(ev["tgt"])
+    return d
+
+
+def _rename(ev, off):
+    import copy
+
+    e = copy.deepcopy(ev)
+    if "out" in e:
+        e["out"] += off
+    if "tgt" in e:
+        e["tgt"] += off
+    if "h" in e:
+        e["h"] += off
+    for r in e.get("args", []):
+        if "t" in r:
+            r["t"] += off
+    if e["k"] == "terminal":
+        e["terms"] = [[h + off, c] for h, c in e["terms"]]
+    return e
+
+
+class C01(Prop):
+    id = "C01"
+    title = "backward() yields the exact total derivative"
+    rule = (
+        "one random dataflow DAG (<=25 nodes: elementwise, reductions, views, indexing, matmul/einsum/where/clip/joins, argument repetition, "
+        "broadcasting, constant leaves/arrays/scalars) executed under k=2..4 schedules (random linear extension, swapped commutative operands, "
+        "permuted sequence operands, bystander statements, early drops, gc); non-trivial when >=2 schedules were judged against the tape and "
+        "against each other; distinct by the sequence of (event kind, outcome class)"
+    )
+    expected_probes = ["grad.judged_backward", "grad.value_ok", "c01.cross_schedule_ok"]
+
+    def generate(self, rng):
+        cfg = {
+            "lane": rng.choice(["plain", "plain", "seams"]),
+            "id_policy": "never",
+            "max_elems": rng.choice([6, 12]),
+            "max_ndim": rng.choice([1, 2, 3]),
+            "dtypes": rng.choice([["f8"], ["f8"], ["f8", "f4"]]),
+            "tape": True,
+            "exact": rng.random() < 0.5,
+            "const_flags": rng.random() < 0.4,
+        }
+        if cfg["exact"]:
+            cfg["dtypes"] = ["f8"]
+        if cfg["lane"] == "seams":
+            cfg["id_policy"] = rng.choice(["lifo", "random"])
+            cfg["gc_preempt_p"] = 0.1
+        g = Gen(rng, cfg)
+        # ---- the DAG, written once
+        for _ in range(rng.randint(1, 4)):
+            g.leaf()
+        if rng.random() < 0.5:
+            g.arr()
+        n_nodes = rng.randint(3, 22)
+        kinds = [("unary", 3), ("binary", 6), ("reduce", 2), ("view", 4), ("adv", 1), ("matmul", 1), ("einsum", 1), ("where", 1), ("clip", 0 if cfg["exact"] else 1),
+                 ("join", 1), ("seq", 1), ("cumsum", 1), ("power", 1)]
+        made = 0
+        tries = 0
+        while made < n_nodes and tries < n_nodes * 4:
+            tries += 1
+            k = g.wchoice(kinds)
+            fl = g.float_tensors()
+            if not fl:
+                break
+            # bias to recent tensors so that depth grows
+            src = fl[-1 - min(len(fl) - 1, int(abs(rng.gauss(0, 2))))] if rng.random() < 0.7 else g.choice(fl)
+            if k in ("view", "adv"):
+                h = g.op_view(src) if k == "view" else g.op_adv_getitem(src)
+            else:
+                h = getattr(g, "op_" + k)(src)
+            if h is not None:
+                made += 1
+        fl = [h for h in g.float_tensors() if not g.t[h].const]
+        if not fl:
+            return {"prop": self.id, "cfg": cfg, "events": g.ev}
+        consumed = set()
+        for ev in g.ev:
+            consumed.update(_ev_deps(ev))
+        sinks = [h for h in fl if h not in consumed]
+        if rng.random() < 0.6 and sinks:
+            terms = [[h, (float(rng.randint(1, 3)) if cfg["exact"] else round(rng.uniform(0.5, 2), 2))] for h in sinks[:6]]
+            L = g.new_h()
+            g.emit({"k": "terminal", "out": L, "terms": terms})
+        else:
+            fl.sort(key=lambda h: g.t[h].depth)
+            L = fl[-1]
+        seed = None
+        base = list(g.ev)
+        k_sched = rng.randint(2, 4)
+        events = []
+        OFF = 1000
+        for j in range(k_sched):
+            evs = [_rename(e, j * OFF) for e in base]
+            if j > 0:
+                evs = self._reschedule(evs, rng)
+            # bystanders: an unrelated graph and consumers L does not depend on
+            extra = []
+            nb = rng.randint(0, 3)
+            for b in range(nb):
+                hb = j * OFF + 900 + 3 * b
+                extra.append({"k": "leaf", "out": hb, "arr": enc_arr(np.array([1.0, 2.0, float(b)])), "constant": None})
+                extra.append({"k": "op", "op": "mul", "out": hb + 1, "args": [{"t": hb}, {"t": hb}], "p": {}, "spell": "f"})
+            for e in extra:
+                evs.insert(rng.randint(0, len(evs)), e) if e["k"] == "leaf" else None
+            # ops of bystanders after their leaves
+            for e in extra:
+                if e["k"] == "op":
+                    pos = next(i for i, x in enumerate(evs) if x.get("out") == e["args"][0]["t"])
+                    evs.insert(rng.randint(pos + 1, len(evs)), e)
+            # a consumer of one of L's inputs that L does not depend on
+            cands = [e["out"] for e in evs if e["k"] in ("leaf", "op") and e.get("out", 0) % OFF < 900]
+            if cands and rng.random() < 0.6:
+                c = rng.choice(cands)
+                pos = next(i for i, x in enumerate(evs) if x.get("out") == c)
+                evs.insert(rng.randint(pos + 1, len(evs)), {"k": "op", "op": "mul", "out": j * OFF + 990, "args": [{"t": c}, {"c": 2.0}], "p": {}, "spell": "f"})
+            if rng.random() < 0.3:
+                evs.insert(rng.randint(0, len(evs)), {"k": "gc"})
+            # early drops of intermediates (after their last use)
+            if rng.random() < 0.5:
+                last_use = {}
+                for i, e in enumerate(evs):
+                    for d in _ev_deps(e):
+                        last_use[d] = i
+                for h, i in sorted(last_use.items(), key=lambda x: -x[1]):
+                    if h != L + j * OFF and rng.random() < 0.3:
+                        prod = next((x for x in evs if x.get("out") == h), None)
+                        if prod is not None and prod["k"] == "op":
+                            evs.insert(i + 1, {"k": "drop", "kind": "T", "h": h, "cycle": False})
+            evs.append({"k": "sched", "j": j, "off": j * OFF})
+            evs.append({"k": "backward", "tgt": L + j * OFF})
+            evs.append({"k": "sched_end", "j": j, "off": j * OFF})
+            events.extend(evs)
+        add_faults(g, events, rng, cfg)
+        return {"prop": self.id, "cfg": cfg, "events": events}
+
+    def _reschedule(self, evs, rng):
+        # random linear extension
+        produced_by = {e["out"]: i for i, e in enumerate(evs) if "out" in e}
+        n = len(evs)
+        deps = [set(produced_by[d] for d in _ev_deps(e) if d in produced_by) for e in evs]
+        done = set()
+        order = []
+        ready = [i for i in range(n) if not deps[i]]
+        while ready:
+            i = ready.pop(rng.randrange(len(ready)))
+            order.append(i)
+            done.add(i)
+            for k in range(n):
+                if k not in done and k not in ready and deps[k] <= done:
+                    ready.append(k)
+        out = [evs[i] for i in order]
+        for e in out:
+            if e["k"] == "op":
+                if e["op"] in COMMUTATIVE and rng.random() < 0.6:
+                    e["args"] = e["args"][::-1]
+                elif e["op"] in ("add_sequence", "multiply_sequence"):
+                    rng.shuffle(e["args"])
+                if rng.random() < 0.3:
+                    e.pop("spell", None)
+            elif e["k"] == "terminal":
+                rng.shuffle(e["terms"])
+        return out
+
+    def observers(self, hist):
+        return [O.GradOracle("C01"), O.CrossScheduleOracle()]
+
+    def nontrivial(self, world):
+        return world.probes.get("c01.cross_schedule_ok", 0) > 0 and world.probes.get("grad.judged_backward", 0) >= 2
+
+
+register(C01())
